@@ -431,7 +431,14 @@ class AtomicSaver:
             try:
                 os.chmod(self.part_path, file_perms)
             except OSError:
-                self.part_file.close()
+                try:
+                    self.part_file.close()
+                finally:
+                    if self.rm_part_on_exc:
+                        try:
+                            os.unlink(self.part_path)
+                        except Exception:
+                            pass  # avoid masking original error
                 raise
         return
 
